@@ -61,7 +61,7 @@ Record fobs := mkFobs {
 
 (* a stored one-block file and a fetch query *)
 Record sfile := mkSfile { sf_name : str; sf_data : str }.
-Inductive fobsres := QBlock (it : item) | QNotFound | QErr | QNil | QPanic.
+Inductive fobsres := QBlock (it : item) | QNotFound | QErr | QNil | QPanic | QHang.
 Record query := mkQuery { q_num : N; q_id : str; q_res : fobsres }.
 
 Inductive c16_case :=
@@ -400,7 +400,7 @@ Definition parse_verdict s o_parsed o_re (panic : bool) : N :=
 
 Definition query_verdict (store : list (str * str)) (msgs : list str) (ids : list (N * str)) (damaged : bool) (q : query) : N :=
   match q_res q with
-  | QPanic => 4
+  | QPanic | QHang => 4
   | r =>
       let mres := fetch_one_block (fun m => Some m) store (q_num q) (q_id q) in
       let m :=
@@ -429,7 +429,7 @@ Definition query_verdict (store : list (str * str)) (msgs : list str) (ids : lis
             end
         | QBlock _ => false
         | QErr | QNil => damaged
-        | QPanic => false
+        | QPanic | QHang => false
         end in
       (if m then 0 else 1) + (if p then 0 else 2)
   end.
@@ -448,7 +448,7 @@ Definition fetch_verdict (store : list sfile) msgs ids qs : N :=
 
 Definition merged_query_verdict (nums : list N) (q : query) : N :=
   match q_res q with
-  | QPanic => 4
+  | QPanic | QHang => 4
   | QNotFound => if memN (q_num q) nums then 1 else 0   (* expected: a block of the bundle is found *)
   | QBlock (IRef i) =>
       match nthN nums i with
